@@ -122,9 +122,10 @@ def build_table(tb: dict, perm=None) -> pymrio.IOSystem:
     if "x" in tb:
         x = np.array(tb["x"], dtype=float)
     io = pymrio.IOSystem()
-    if tb.get("dtype") == "int" and all(np.array_equal(a, np.rint(a)) for a in (Z, Y, x)):
+    if tb.get("dtype") == "int" and all(np.array_equal(a, np.rint(a)) for a in (Z, Y, x)) and float(np.max(np.abs(x))) < 1e15:
         # a table of whole numbers stored with an integer dtype (only when the values are integral: a stream that
-        # edits a cell afterwards keeps a float table)
+        # edits a cell afterwards keeps a float table; and only below 1e15: a twin that multiplies the table by 1e6 would
+        # otherwise overflow 64-bit integers in the sums, which is not what is being checked)
         Z, Y, x = Z.astype(np.int64), Y.astype(np.int64), x.astype(np.int64)
     io.Z = pd.DataFrame(Z, index=ind, columns=ind)
     io.Y = pd.DataFrame(Y, index=ind, columns=fdi)
@@ -285,9 +286,9 @@ def build_model(tb: dict, cfg: dict, io=None, capital_perm=None, dict_order=None
     if cap["kind"] == "dict":
         kw["productive_capital_to_VA_dict"] = reorder(cap["values"])
     elif cap["kind"] == "ndarray":
-        kw["productive_capital_vector"] = np.array(cap["values"], dtype="int64" if cap.get("int_dtype") else float)
+        kw["productive_capital_vector"] = np.array(cap["values"], dtype="int64" if cap.get("int_dtype") and max(cap["values"]) < 1e15 else float)
     elif cap["kind"] == "series":
-        s = pd.Series(cap["values"], index=ind, dtype="int64" if cap.get("int_dtype") else float)
+        s = pd.Series(cap["values"], index=ind, dtype="int64" if cap.get("int_dtype") and max(cap["values"]) < 1e15 else float)
         if capital_perm is None and cap.get("shuffle") is not None:
             capital_perm = list(range(len(ind)))
             random.Random(cap["shuffle"]).shuffle(capital_perm)
@@ -295,7 +296,7 @@ def build_model(tb: dict, cfg: dict, io=None, capital_perm=None, dict_order=None
             s = s.iloc[capital_perm]
         kw["productive_capital_vector"] = s
     elif cap["kind"] == "dataframe":
-        s = pd.DataFrame({"capital": cap["values"]}, index=ind, dtype="int64" if cap.get("int_dtype") else float)
+        s = pd.DataFrame({"capital": cap["values"]}, index=ind, dtype="int64" if cap.get("int_dtype") and max(cap["values"]) < 1e15 else float)
         if capital_perm is None and cap.get("shuffle") is not None:
             capital_perm = list(range(len(ind)))
             random.Random(cap["shuffle"]).shuffle(capital_perm)
@@ -439,7 +440,7 @@ def gen_event(rng: random.Random, tb: dict, cfg: dict, T: int, etype=None, capit
 def _mi(dct, names, int_dtype=False):
     idx = pd.MultiIndex.from_tuples([tuple(kk.split("|")) for kk in dct.keys()], names=names)
     vals = list(dct.values())
-    if int_dtype and all(float(v).is_integer() for v in vals):
+    if int_dtype and all(float(v).is_integer() and abs(v) < 1e15 for v in vals):
         return pd.Series([int(v) for v in vals], index=idx, dtype="int64")      # whole amounts, integer dtype
     return pd.Series(vals, index=idx, dtype=float)
 
